@@ -79,29 +79,46 @@ Section Trace.
     | CElseIf l r =>
         tr_cond l b (fun p s1 => if snd p then tr_cond r (fst p) k s1 else k (fst p, false) s1) s
     | CUnion l r =>
+        (* since 6dfdafd the second pass hands on only the TRUE results of the right operand; the false ones are
+           produced (their events happen) and dropped *)
         andthen (tr_cond l b (fun p s1 => if snd p then tr_cond r (fst p) k s1 else k (fst p, false) s1) s)
-                (tr_cond r b k)
+                (tr_cond r b (fun p s1 => if snd p then (s1, Continue) else k p s1))
     | CNot c => tr_cond c b (fun p => k (fst p, negb (snd p))) s
     | CExists _ _ | CForAll _ _ => (s, Continue)
     end.
 
-  (* QueryObjectDescriptor.evaluate_selected_variables: one generator per selected expression over a copy of the bindings,
-     then itertools.product over the generators -- which turns EVERY generator into a tuple before the first combination exists.
-     That eager step is modelled as such: each selected expression is drained (its events happen now, in order),
-     then the combinations (the rows of the list-monad model) are handed out. *)
+  (* QueryObjectDescriptor.evaluate_selected_variables (since 32abf51): lazy nested loops over the selected expressions,
+     leftmost varies slowest, each evaluated under the bindings the ones before it produced; a row is handed out as soon
+     as the innermost loop has a value.  (Before: itertools.product over independent generators, which turned every
+     generator into a tuple before the first row -- finding C10-a, kept as [tr_select_product] for the regression witness.) *)
+  Fixpoint tr_select (sels : list opnd) (b : binds) (k : list val -> store -> store * signal) (s : store)
+    : store * signal :=
+    match sels with
+    | [] => k [] s
+    | e :: ss => tr_opnd e b (fun p s1 => tr_select ss (fst p) (fun row => k (snd p :: row)) s1) s
+    end.
+
+  (* the evaluator before 32abf51: drain every selected expression, then hand out the combinations *)
   Definition drain (e : opnd) (b : binds) (s : store) : store :=
     fst (tr_opnd e b (fun _ s1 => (s1, Continue)) s).
   Definition drain_all (sels : list opnd) (b : binds) (s : store) : store :=
     fold_left (fun s0 e => drain e b s0) sels s.
-  Definition tr_select (sels : list opnd) (b : binds) (k : list val -> store -> store * signal) (s : store)
+  Definition tr_select_product (sels : list opnd) (b : binds) (k : list val -> store -> store * signal) (s : store)
     : store * signal :=
-    each k (select W D sels b) (drain_all sels b s).
+    each k (select_product W D sels b) (drain_all sels b s).
 
   (* get_constrained_values keeps the true results of the condition *)
   Definition tr_run (q : query) (k : list val -> store -> store * signal) (s : store) : store * signal :=
     match q_cond q with
     | Some c => tr_cond c [] (fun p s1 => if snd p then (s1, Continue) else tr_select (q_sels q) (fst p) k s1) s
     | None => tr_select (q_sels q) [] k s
+    end.
+
+  (* the descriptor before 32abf51 (regression witness only) *)
+  Definition tr_run_product (q : query) (k : list val -> store -> store * signal) (s : store) : store * signal :=
+    match q_cond q with
+    | Some c => tr_cond c [] (fun p s1 => if snd p then (s1, Continue) else tr_select_product (q_sels q) (fst p) k s1) s
+    | None => tr_select_product (q_sels q) [] k s
     end.
 
   (* the consumer of an(...).evaluate(): takes a row; after its n-th row it never calls next() again *)
@@ -112,6 +129,8 @@ Section Trace.
   (* the log after pulling n results (chronological order); n = 0: the generator was never started *)
   Definition trace_k (q : query) (n : nat) : list event :=
     match n with 0 => [] | _ => rev (fst (tr_run q (take n) [])) end.
+  Definition trace_k_product (q : query) (n : nat) : list event :=
+    match n with 0 => [] | _ => rev (fst (tr_run_product q (take n) [])) end.
   (* the log of list(an(...).evaluate()) *)
   Definition trace_full (q : query) : list event := rev (fst (tr_run q take_all [])).
   (* ---- several evaluations one after the other over the SAME variables (the same an(...) object evaluated again, or
